@@ -1,6 +1,6 @@
 (* Proofs about the typed JSON mapping model (JsonTyped.v). *)
 From Coq Require Import Lia.
-From Hv Require Import Prelude Json JsonSpec JsonProofs JsonTyped.
+From Hv Require Import Prelude TablesJson Json JsonSpec JsonProofs JsonTyped.
 Open Scope N_scope.
 
 (* induction principle for the nested type universe *)
@@ -692,3 +692,30 @@ Proof.
   - vm_compute. reflexivity.
   - vm_compute. discriminate.
 Qed.
+
+(* ------------------------------------------------------------------------------------------------ *)
+(* the same round trip through text: from_str (to_string v) = v  (typed mapping + C13 round trip) *)
+Section TypedTextProofs.
+  Variable F : Type.
+  Variable F32 : Type.
+  Variable of_int : Z -> F.
+  Variable f2z : F -> Z.
+  Variable widen : F32 -> F.
+  Variable narrow : F -> F32.
+  Variable fparse : str -> option F.
+  Variable fdisplay : F -> str.
+  Variable ffinite : F -> Prop.
+  Hypothesis narrow_widen : forall x : F32, narrow (widen x) = x.
+  Hypothesis display_is_number : forall x, ffinite x -> JNumber (fdisplay x).
+  Hypothesis parse_display : forall x, ffinite x -> fparse (fdisplay x) = Some x.
+
+  Theorem typed_text_roundtrip (t : ty) (v : rval F F32) :
+    wf_ty t -> has_type F F32 v t -> lossless F F32 of_int f2z t v ->
+    serialisable F ffinite (to_json F F32 of_int widen t v) -> depth (to_json F F32 of_int widen t v) <= MAX_DEPTH ->
+    from_str F F32 f2z narrow fparse t (to_string F F32 of_int widen fdisplay t v) = Ok v.
+  Proof.
+    intros Hwf Ht Hl Hs Hd. unfold from_str, to_string, parse.
+    rewrite (JsonProofs.roundtrip F fparse fdisplay ffinite display_is_number parse_display MAX_DEPTH _ Hs Hd).
+    apply (typed_roundtrip_iff F F32 of_int f2z widen narrow narrow_widen t Hwf v Ht). exact Hl.
+  Qed.
+End TypedTextProofs.
